@@ -625,3 +625,22 @@ Proof.
   intros Hs Hw Hh. cbn [step]. rewrite Hs, (has_ticket_not_duplicable x Hw Hh).
   destruct (stk st); reflexivity.
 Qed.
+
+(* a successful split or join redistributes the amount exactly *)
+Theorem split_conserves_exactly st tk c a l r s k :
+  stk st = VTicket tk c a :: VPair (VNat l) (VNat r) :: s -> l <> 0 -> r <> 0 -> l + r = a ->
+  exists st', step SPLIT_TICKET st = Ok st' /\ stack_mass k (stk st') = stack_mass k (stk st) /\ minted st' = minted st.
+Proof.
+  intros Hs Hl Hr Ha. destruct (split_spec st tk c a l r s Hs) as [_ H]. specialize (H Hl Hr Ha).
+  eexists. split; [exact H|]. rewrite Hs. unfold with_stk. cbn [stk minted stack_mass mass].
+  split; [|reflexivity]. destruct (key_eqb k (tk, c)); lia.
+Qed.
+
+Theorem join_conserves_exactly st t c a1 a2 s k :
+  stk st = VPair (VTicket t c a1) (VTicket t c a2) :: s ->
+  exists st', step JOIN_TICKETS st = Ok st' /\ stack_mass k (stk st') = stack_mass k (stk st) /\ minted st' = minted st.
+Proof.
+  intros Hs. destruct (join_spec st t c a1 t c a2 s Hs eq_refl) as [H _]. specialize (H (conj eq_refl eq_refl)).
+  eexists. split; [exact H|]. rewrite Hs. unfold with_stk. cbn [stk minted stack_mass mass].
+  split; [|reflexivity]. destruct (key_eqb k (t, c)); lia.
+Qed.
